@@ -623,8 +623,8 @@ T('C08', 'twin-logging-to-explicit-stderr', LOGPY, 'logging.basicConfig(format=f
   edits=[(LOGPY, 'import logging\n', 'import logging\nimport sys\n')])
 M('C08', 'whitespace-garbage-treated-as-empty-input', UT, "                    if len(fo.read(10)) != 0:\n                        raise", "                    if fo.read(10).strip():\n                        raise", 'R08.7')
 T('C08', 'twin-emptiness-by-truthiness', UT, "                    if len(fo.read(10)) != 0:\n                        raise", "                    if fo.read(1):\n                        raise")
-M('C09', 'combine-patches-groups-before-sort', STR, "    patches = {}\n    newdiffs = []\n    for d in diffs:\n        if d.op == DiffOp.PATCH:",
-  "    patches = {}\n    newdiffs = []\n    newdiffs.extend(d for d in diffs if d.op == DiffOp.REMOVERANGE)\n    diffs = [d for d in diffs if d.op != DiffOp.REMOVERANGE]\n    for d in diffs:\n        if d.op == DiffOp.PATCH:", 'R09.8')
+M('C09', 'combine-patches-groups-before-sort', STR, "    patches = {}\n    inserts = {}\n    newdiffs = []\n    for d in diffs:\n        if d.op == DiffOp.PATCH:",
+  "    patches = {}\n    inserts = {}\n    newdiffs = []\n    newdiffs.extend(d for d in diffs if d.op == DiffOp.REMOVERANGE)\n    diffs = [d for d in diffs if d.op != DiffOp.REMOVERANGE]\n    for d in diffs:\n        if d.op == DiffOp.PATCH:", 'R09.8')
 T('C09', 'twin-combine-patches-explicit-tiebreak', STR, "    return sorted(newdiffs, key=lambda x: x.key)", "    newdiffs.sort(key=lambda x: x.key)\n    return newdiffs")
 M('C09', 'side-skipped-when-equal-to-base', MNB, "    local_diffs = diff_notebooks(base, local)\n", "    local_diffs = diff_notebooks(base, local) if local != base else []\n", 'R09.9')
 M('C09', 'merger-deduplicates-decisions', MG, "    if any([decisions.decisions[i] == decisions.decisions[j]",
@@ -665,8 +665,8 @@ M('C20', 'server-whitespace-garbage-treated-as-empty', SRV, "                   
 T('C20', 'twin-server-emptiness-by-comparison', SRV, "                            if len(fo.read(10)) != 0:\n                                raise", "                            if len(fo.read(10)) > 0:\n                                raise")
 
 # ------------------------------------------------------------------------------------------ C06 (pipeline shape of disjoint merges)
-M('C06', 'combine-patches-groups-before-sort', STR, "    patches = {}\n    newdiffs = []\n    for d in diffs:\n        if d.op == DiffOp.PATCH:",
-  "    patches = {}\n    newdiffs = []\n    newdiffs.extend(d for d in diffs if d.op == DiffOp.REMOVERANGE)\n    diffs = [d for d in diffs if d.op != DiffOp.REMOVERANGE]\n    for d in diffs:\n        if d.op == DiffOp.PATCH:", 'R09.8')
+M('C06', 'combine-patches-groups-before-sort', STR, "    patches = {}\n    inserts = {}\n    newdiffs = []\n    for d in diffs:\n        if d.op == DiffOp.PATCH:",
+  "    patches = {}\n    inserts = {}\n    newdiffs = []\n    newdiffs.extend(d for d in diffs if d.op == DiffOp.REMOVERANGE)\n    diffs = [d for d in diffs if d.op != DiffOp.REMOVERANGE]\n    for d in diffs:\n        if d.op == DiffOp.PATCH:", 'R09.8')
 M('C06', 'side-skipped-when-equal-to-base', MNB, "    remote_diffs = diff_notebooks(base, remote)\n", "    remote_diffs = diff_notebooks(base, remote) if remote != base else []\n", 'R09.9')
 M('C06', 'onesided-defaults-to-conflict', DEC, '    def onesided(self, path, local_diff, remote_diff, conflict=False):', '    def onesided(self, path, local_diff, remote_diff, conflict=True):', 'R05.1')
 M('C06', 'onesided-arm-consults-strategy', MG,
@@ -809,7 +809,7 @@ M('C05', 'merged-notebook-cleaned-by-helper', MNB, "    merged = apply_decisions
   edits=[(MNB, 'def merge_notebooks(base, local, remote, args=None):', "def _strip(nb):\n    for c in nb.get('cells', []):\n        c.get('metadata', {}).pop('nbdime-conflicts', None)\n\n\ndef merge_notebooks(base, local, remote, args=None):")])
 T('C05', 'twin-merged-notebook-inspected-by-helper', MNB, "    merged = apply_decisions(base, decisions)\n", "    merged = apply_decisions(base, decisions)\n    _count(merged)\n",
   edits=[(MNB, 'def merge_notebooks(base, local, remote, args=None):', "def _count(nb):\n    return len(nb.get('cells', []))\n\n\ndef merge_notebooks(base, local, remote, args=None):")])
-M('C03', 'combine-patches-fast-path', STR, '    patches = {}\n    newdiffs = []\n    for d in diffs:', '    if all(a.key <= b.key for a, b in zip(diffs, diffs[1:])):\n        return diffs\n    patches = {}\n    newdiffs = []\n    for d in diffs:', 'R03.25')
+M('C03', 'combine-patches-fast-path', STR, '    patches = {}\n    inserts = {}\n    newdiffs = []\n    for d in diffs:', '    if all(a.key <= b.key for a, b in zip(diffs, diffs[1:])):\n        return diffs\n    patches = {}\n    inserts = {}\n    newdiffs = []\n    for d in diffs:', 'R03.25')
 M('C05', 'lone-side-constant-in-filter', STR, "                custom_diff = [op_removerange(key, 1)]", "                custom_diff = [e for d in decs if d.action == 'local_then_remote' for e in d.local_diff if e.op == DiffOp.ADDRANGE] + [op_removerange(key, 1)]", 'R05.9')
 M('C07', 'conflict-halves-cut-with-local-length', PP, "    local = local[:i+1]\n    remote = remote[:j+1]", "    end = len(local) - len(postlines)\n    local = local[:end]\n    remote = remote[:end]", 'R07.15')
 M('C08', 'stdout-handler-replace', UT, "errors='backslashreplace')", "errors='replace')", 'R08.11')
@@ -854,7 +854,7 @@ M('C14', 'ignored-path-test-memoised', GEN, "def _is_ignored(config, path):", "@
 M('C12', 'flag-memo-in-args', ARGS, "def process_diff_flags(args):", "_last_flags = {}\n\n\ndef process_diff_flags(args):\n    _last_flags.update(vars(args))", 'R12.12')
 M('C18', 'driver-registered-after-attributes-check', DRV, "    check_call(cmd + ['merge.jupyternotebook.driver', 'git-nbmergedriver merge %O %A %B %L %P'])\n    check_call(cmd + ['merge.jupyternotebook.name', 'jupyter notebook merge driver'])\n\n    gitattributes = locate_gitattributes(scope)", "    gitattributes = locate_gitattributes(scope)", 'R18.11',
   edits=[(DRV, "    with io.open(gitattributes, 'a', encoding=\"utf8\") as f:\n        f.write(u'\\n*.ipynb\\tmerge=jupyternotebook\\n')", "    check_call(cmd + ['merge.jupyternotebook.driver', 'git-nbmergedriver merge %O %A %B %L %P'])\n    check_call(cmd + ['merge.jupyternotebook.name', 'jupyter notebook merge driver'])\n    with io.open(gitattributes, 'a', encoding=\"utf8\") as f:\n        f.write(u'\\n*.ipynb\\tmerge=jupyternotebook\\n')")])
-M('C09', 'decisions-dump-raw-unicode', APP, "json.dump(decisions, outfile, indent=2)", "json.dump(decisions, outfile, indent=2, ensure_ascii=False)", 'R09.17')
+M('C09', 'decisions-dump-raw-unicode', APP, "json.dumps(decisions, indent=2)", "json.dumps(decisions, indent=2, ensure_ascii=False)", 'R09.17')
 M('C17', 'blob-decoded-lossy', GF, "blob.data_stream.read().decode('utf-8')", "blob.data_stream.read().decode('utf-8', 'replace')", 'R17.14')
 M('C20', 'request-name-unescaped', SRV, "        body = json.loads(escape.to_unicode(self.request.body))\n        arg = body[argname]\n", "        body = json.loads(escape.to_unicode(self.request.body))\n        arg = escape.url_unescape(body[argname])\n", 'R20.15')
 M('C20', 'store-keeps-backup-copy', SRV, "        with io.open(path, 'w', encoding='utf8') as f:\n            f.write(text)", "        if os.path.isfile(path):\n            shutil.copyfile(path, path + '.orig')\n        with io.open(path, 'w', encoding='utf8') as f:\n            f.write(text)", 'R20.4',
@@ -1008,3 +1008,57 @@ M('C14', 'printer-hides-every-other-cell-field-as-detail', PP, "        if starr
 M('C14', 'ignore-consulted-only-for-same-typed-values', GEN, "        if _is_ignored(config, subpath):\n            # (whatever the types of the two values: null -> 2 is a change\n            # of the ignored field like 1 -> 2)\n            continue\n", "", 'R14.7')
 M('C16', 'assertion-on-tool-output', PP, "        if n <= 2:\n            output = stripped\n", "        assert n <= 2, 'unexpected output'\n        output = stripped\n", 'R16.22')
 M('C14', 'unwrapped-key-filter-loses-its-keys', NBD, "                keys = list(inner.ignore_keys) + [\n                    k for k in keys if k not in inner.ignore_keys]\n", "", 'R14.4')
+
+# ---------------------------------------------------------------------------------------------- round 8 rules
+SEQ = 'nbdime/diffing/sequences.py'
+M('C20', 'merge-endpoint-answers-identical-sides-itself', SRV, "        try:\n            decisions = decide_notebook_merge(base_nb, local_nb, remote_nb,",
+  "        if local_nb == remote_nb:\n            self.finish({'base': base_nb, 'merge_decisions': []})\n            return\n        try:\n            decisions = decide_notebook_merge(base_nb, local_nb, remote_nb,", 'R20.18')
+T('C20', 'twin-merge-endpoint-data-built-inline', SRV, "        data = {\n            'base': base_nb,\n            'merge_decisions': decisions\n            }\n        self.finish(data)",
+  "        self.finish({\n            'base': base_nb,\n            'merge_decisions': decisions\n            })")
+M('C18', 'diffdriver-disable-skips-outside-repository-root', DDR, "        cmd.append('--%s' % scope)\n    try:\n        check_call(cmd + ['--remove-section', 'diff.jupyternotebook'])",
+  "        cmd.append('--%s' % scope)\n    elif not os.path.exists('.git'):\n        return\n    try:\n        check_call(cmd + ['--remove-section', 'diff.jupyternotebook'])", 'R18.15')
+T('C18', 'twin-diffdriver-disable-section-named', DDR, "    try:\n        check_call(cmd + ['--remove-section', 'diff.jupyternotebook'])",
+  "    section = 'diff.jupyternotebook'\n    try:\n        check_call(cmd + ['--remove-section', section])")
+M('C03', 'large-two-sided-insertions-conflict-unaligned', MG, "    intermediate_diff = perform_diff(\n        local, remote, path=star_path(path),",
+  "    if len(local) * len(remote) > 400:\n        decisions = MergeDecisionBuilder()\n        decisions.conflict(path, [op_addrange(key, local)], [op_addrange(key, remote)], item_strategy)\n        return decisions\n    intermediate_diff = perform_diff(\n        local, remote, path=star_path(path),", 'R03.31')
+T('C03', 'twin-split-addrange-builder-created-first', MG, "    intermediate_diff = perform_diff(\n        local, remote, path=star_path(path),\n        config=copy.copy(notebook_config)\n    )\n\n    # Next, translate the diff into decisions\n    decisions = MergeDecisionBuilder()\n",
+  "    decisions = MergeDecisionBuilder()\n    intermediate_diff = perform_diff(\n        local, remote, path=star_path(path),\n        config=copy.copy(notebook_config)\n    )\n\n    # Next, translate the diff into decisions\n")
+M('C16', 'difflib-renderer-header-dropped-by-index', PP, '    return "".join(diff.splitlines(True)[2:])', "    return diff.split('\\n', 2)[2]", 'R16.24')
+T('C16', 'twin-difflib-renderer-header-dropped-by-slice-of-a-local', PP, '    return "".join(diff.splitlines(True)[2:])', '    lines = diff.splitlines(True)\n    return "".join(lines[2:])')
+M('C13', 'diff-notebooks-joins-lines-in-place', NBD, "def diff_notebooks(a, b):", "def diff_notebooks(a, b):\n    from nbformat.v4.rwbase import rejoin_lines\n    a = rejoin_lines(a)\n    b = rejoin_lines(b)", 'R13.1')
+M('C07', 'diff3-base-sections-filtered-by-line-prefix', PP, "    merged, status = external_merge_render(cmd.split(), b, l, r)\n    return merged, status\n\n\ndef merge_render(",
+  "    merged, status = external_merge_render(cmd.split(), b, l, r)\n    keep, skip = [], False\n    for line in merged.splitlines(True):\n        if line.startswith('|||||||'):\n            skip = True\n        elif skip and line.startswith('======='):\n            skip = False\n        if not skip:\n            keep.append(line)\n    merged = ''.join(keep)\n    return merged, status\n\n\ndef merge_render(", 'R07.18')
+T('C07', 'twin-diff3-result-returned-directly', PP, "    merged, status = external_merge_render(cmd.split(), b, l, r)\n    return merged, status\n\n\ndef merge_render(", "    return external_merge_render(cmd.split(), b, l, r)\n\n\ndef merge_render(")
+M('C02', 'op-add-rejects-null', DF, '    "Create a diff entry to add value at/before key."\n', '    "Create a diff entry to add value at/before key."\n    assert value is not None, "Add op needs a value"\n', 'R02.26')
+M('C01', 'op-replace-rejects-null', DF, '    "Create a diff entry to replace value at key with given value."\n', '    "Create a diff entry to replace value at key with given value."\n    if value is None:\n        raise ValueError("no value")\n', 'R01.24')
+T('C02', 'twin-op-add-keywords-reordered', DF, "    return DiffEntry(op=DiffOp.ADD, key=key, value=value)", "    return DiffEntry(key=key, op=DiffOp.ADD, value=value)")
+M('C15', 'ts-patch-sequence-spreads-valuelist', TSGEN, "      patched = patched.concat(e.valuelist);", "      patched.push(...(e.valuelist as JSONArray));", 'R15.13')
+T('C15', 'twin-ts-patch-sequence-pushes-in-a-loop', TSGEN, "      patched = patched.concat(e.valuelist);", "      for (let v of e.valuelist) {\n        patched.push(v);\n      }")
+M('C15', 'ts-apply-decisions-compares-joined-paths', TSDEC, "    if (arraysEqual(path, prevPath)) {", "    if (prevPath !== null && path.join('/') === prevPath.join('/')) {", 'R15.14')
+M('C04', 'kept-cell-loses-transient-part-of-its-diff', MG, "                is_transient = is_diff_all_transients(thediff, item_path, transients)\n",
+  "                is_transient = is_diff_all_transients(thediff, item_path, transients)\n                if not is_transient:\n                    thediff = [e for e in thediff if star_path(item_path + (e.key,)) not in transients]\n", 'R04.14')
+M('C10', 'dict-removal-conflict-arbitrated-by-the-dict', MG, "            decisions.conflict(path, [ld], [rd], item_strategy)\n", "            decisions.conflict(path, [ld], [rd], dict_strategy)\n", 'R10.12', count=4)
+M('C10', 'open-transient-conflicts-settled-after-the-strategies', MNB, "    # Debug outputs\n    if args and args.log_level == \"DEBUG\":\n        nbdime.log.debug(\"In merge, decisions:\")",
+  "    for d in decisions:\n        if d.conflict and d.action == 'base' and not d.get('custom_diff'):\n            d.conflict = False\n    # Debug outputs\n    if args and args.log_level == \"DEBUG\":\n        nbdime.log.debug(\"In merge, decisions:\")", 'R10.13')
+T('C10', 'twin-decisions-returned-through-a-local', MNB, "        nbdime.log.debug(config.out.getvalue())\n\n    return decisions\n", "        nbdime.log.debug(config.out.getvalue())\n\n    result = decisions\n    return result\n")
+M('C05', 'transient-add-add-settled-as-either', MG, "        elif strict_equal(ld, rd):", "        elif star_path(item_path) in getattr(strategies, 'transients', ()) and ld.op == rd.op == DiffOp.ADD:\n            decisions.add_decision(path, 'either', [ld], [rd])\n        elif strict_equal(ld, rd):", 'R05.16')
+M('C01', 'long-scalar-lists-aligned-by-difflib', SEQ, '    if diff_sequence_algorithm == "difflib":', '    if len(a) * len(b) > 4096 and compare is operator.__eq__:\n        return diff_sequence_difflib(a, b)\n    if diff_sequence_algorithm == "difflib":', 'R01.25')
+M('C02', 'long-scalar-lists-aligned-by-difflib', SEQ, '    if diff_sequence_algorithm == "difflib":', '    if len(a) * len(b) > 4096 and compare is operator.__eq__:\n        return diff_sequence_difflib(a, b)\n    if diff_sequence_algorithm == "difflib":', 'R02.27')
+T('C01', 'twin-algorithm-switch-compared-reversed', SEQ, '    if diff_sequence_algorithm == "difflib":', '    if "difflib" == diff_sequence_algorithm:')
+M('C19', 'jupyter-search-path-memoised-and-extended', CFGPY, "    path = jupyter_config_path()\n    path.insert(0, os.getcwd())\n",
+  "    path = _jupyter_search_path()\n    path.insert(0, os.getcwd())\n", 'R19.3',
+  edits=[(CFGPY, "def build_config(", "from functools import lru_cache\n\n\n@lru_cache(maxsize=None)\ndef _jupyter_search_path():\n    return jupyter_config_path()\n\n\ndef build_config(")])
+T('C19', 'twin-jupyter-search-path-memoised-and-copied', CFGPY, "    path = jupyter_config_path()\n    path.insert(0, os.getcwd())\n",
+  "    path = [os.getcwd()] + _jupyter_search_path()\n",
+  edits=[(CFGPY, "def build_config(", "from functools import lru_cache\n\n\n@lru_cache(maxsize=None)\ndef _jupyter_search_path():\n    return jupyter_config_path()\n\n\ndef build_config(")])
+M('C02', 'line-offsets-cached-by-address', DU, "def flatten_list_of_string_diff(a, linebased_diff):", "_offsets_memo = {}\n\n\ndef _memo_key(a):\n    return (id(a), len(a))\n\n\ndef flatten_list_of_string_diff(a, linebased_diff):\n    _offsets_memo.get(_memo_key(a))", 'R02.28')
+M('C10', 'star-path-keeps-one-digit-strings', UT, "            if r_is_int.match(p):\n                path[i] = '*'\n", "            if r_is_int.match(p) and len(p) > 1:\n                path[i] = '*'\n", 'R10.14')
+M('C14', 'star-path-without-leading-separator', UT, '    return ret if ret.startswith("/") else "/" + ret', '    return ret', 'R14.22')
+T('C10', 'twin-star-path-copies-by-comprehension', UT, '    """Replace integers and integer-strings in a path with * """\n    path = list(path)\n', '    """Replace integers and integer-strings in a path with * """\n    path = [p for p in path]\n')
+M('C05', 'split-string-path-steps-before-it-tests', DEC, "    for i in range(len(path)):\n        if isinstance(base, str):\n            return path[:i], path[i:]\n        base = base[path[i]]\n",
+  "    for i, key in enumerate(path):\n        base = base[key]\n        if isinstance(base, str):\n            return path[:i + 1], path[i + 1:]\n", 'R05.17')
+T('C05', 'twin-split-string-path-enumerates', DEC, "    for i in range(len(path)):\n        if isinstance(base, str):\n            return path[:i], path[i:]\n        base = base[path[i]]\n",
+  "    for i, key in enumerate(path):\n        if isinstance(base, str):\n            return path[:i], path[i:]\n        base = base[key]\n")
+M('C17', 'failed-clean-filter-remembered', 'nbdime/vcs/git/filter_integration.py', "def apply_possible_filter(", "_failed = set()\n\n\ndef _note_failed(cmd):\n    _failed.add(cmd)\n\n\ndef apply_possible_filter(", 'R17.19',
+  edits=[('nbdime/vcs/git/filter_integration.py', "    filter_cmd = get_clean_filter_cmd(filter_attr)\n", "    filter_cmd = get_clean_filter_cmd(filter_attr)\n    _note_failed(filter_cmd)\n")])
+M('C06', 'merged-cells-normalised-after-the-decisions', DEC, "    merged = nbformat.from_dict(merged)\n    return merged\n", "    if isinstance(merged, dict) and merged.get('nbformat_minor', 0) < 5:\n        for c in merged.get('cells', []):\n            c.pop('id', None)\n    merged = nbformat.from_dict(merged)\n    return merged\n", 'R06.3')
